@@ -7,7 +7,7 @@
    every fault pattern ([OFlush shmok qfull], [OClose qfull]), every schedule of writers, the
    receiving event loop and the send loop (one shared access per step). *)
 From Coq Require Import List ZArith Lia Bool Arith.
-From Shm Require Import Gen.Consts Gen.SwitchC07 Model.Wakeup Model.Mux Model.MuxCallback Proofs.MuxProofs Proofs.MuxOrderProofs.
+From Shm Require Import Gen.Consts Gen.SwitchC07 Model.Wakeup Model.Mux Model.MuxCallback Model.MuxReader Proofs.MuxProofs Proofs.MuxOrderProofs Proofs.MuxReaderProofs.
 Import ListNotations.
 Open Scope nat_scope.
 
@@ -82,6 +82,52 @@ Example C07_regression_end_mark_inside_the_window :
   let st := mrun wit_e_sched (minit wit_e_progs) in
   seen 1 st = [DData 0; DData 1; DEnd] /\ sent 1 st = [DData 0; DData 1; DEnd] /\ ordered 1 st = true.
 Proof. exact reg_e. Qed.
+
+(* END OF STREAM IN SYNC MODE (Model/MuxReader.v: Stream.readMore against the dispatcher; every interleaving, every
+   choice of Go's select when several channels are ready).  [rrun] is [rrun_g sw_close_branch_moves]; the
+   switch is regenerated from readMore's closeNotifyCh branch on every run. *)
+
+(* holds: when the WAIT LOOP reports the end (closeNotifyCh branch), every byte that arrived before the close has
+   been moved into recvBuf by a moveTo that follows the close notification *)
+Theorem C07_eos_after_last_bytes : forall l min,
+  rsel (rrun l min) = true -> told_eos (rrun l min) = true /\ rpend (rrun l min) = 0.
+Proof. exact eos_from_wait_after_last_bytes. Qed.
+Print Assumptions C07_eos_after_last_bytes.
+
+(* ... and it depends on that moveTo: without it the select may pick the close branch while the data
+   notification is ready as well, and the last message stays in pendingData *)
+Theorem C07_eos_needs_move_in_close_branch :
+  ~ (forall em l min, let s := rrun_g false em l min in rsel s = true -> rpend s = 0).
+Proof. exact no_move_refutes. Qed.
+Print Assumptions C07_eos_needs_move_in_close_branch.
+
+Example C07_regression_close_branch_without_move :
+  (let s := rrun_g false false wit_sel 8 in rp s = RDone REos /\ rsel s = true /\ rpend s = 8 /\ rtok s = true) /\
+  (let s := rrun_g true false wit_sel 8 in rp s = RDone ROk /\ rpend s = 0 /\ rbuf s = 8).
+Proof. exact close_branch_needs_move. Qed.
+
+(* the FULL statement "whenever the reader is told the stream ended, nothing is left un-offered":
+   - false if the entry test of readMore (`recvLen == 0 && !IsOpen()`) reports the end using the length it read
+     BEFORE the last message and the close arrived (the code as of 1ff1743; finding
+     C07:end-of-stream-at-read-entry-with-data-pending, witness below);
+   - true if the entry test moves pending data again before it reports the end
+     (.work/fixes/C07_offer_last_bytes_before_eos_at_read_entry.diff).
+   Which of the two the source has is read by the translator (sw_entry_rechecks). *)
+Definition C07_eos_full : Prop := forall l min, eos_ok (rrun l min) = true.
+
+Theorem C07_eos_by_entry_shape : if sw_entry_rechecks then C07_eos_full else ~ C07_eos_full.
+Proof. exact eos_by_entry_shape. Qed.
+Print Assumptions C07_eos_by_entry_shape.
+
+Theorem C07_eos_full_if_entry_rechecks : forall l min, eos_ok (rrun_g true true l min) = true.
+Proof. exact eos_full_if_entry_rechecks. Qed.
+Print Assumptions C07_eos_full_if_entry_rechecks.
+
+Theorem C07_refuted_eos_at_read_entry :
+  let s := rrun_g true false wit_entry 8 in
+  rp s = RDone REos /\ rpend s = 8 /\ rbuf s = 0 /\ rsel s = false /\ eos_ok s = false.
+Proof. exact wit_entry_run. Qed.
+Print Assumptions C07_refuted_eos_at_read_entry.
 
 (* END OF STREAM IN CALLBACK MODE (the only clause of C07 that is still false; Model/MuxCallback.v):
    "OnRemoteClose only after every byte that arrived before the peer's close was offered to OnData".
